@@ -1147,6 +1147,13 @@ impl RefTerm {
         if n < self.rows {
             return false;
         }
+        // an implementation state that breaks the basic invariants cannot be continued from
+        if h.top_margin > h.bottom_margin || h.bottom_margin >= self.rows || real.cursor.1 >= self.rows || real.cursor.0 > self.cols {
+            return false;
+        }
+        if real.rows[n - self.rows..].iter().any(|r| r.cells.len() != self.cols) {
+            return false;
+        }
         let (sb, view) = real.rows.split_at(n - self.rows);
         let conv = |r: &RowObs| RRow { cells: r.cells.clone(), wrap: r.wrapped };
         self.grid = view.iter().map(conv).collect();
@@ -1220,7 +1227,10 @@ impl RefTerm {
             return Err(format!("pending-wrap flag {}, but the cursor column says {}", h.pending_wrap, self.pending));
         }
         let want: Vec<usize> = self.tabs.iter().copied().collect();
-        if h.tabs != want {
+        // the ORDER in which the implementation keeps its stops is representation
+        let mut got = h.tabs.clone();
+        got.sort();
+        if got != want {
             return Err(format!("tab stops {:?}, expected {:?}", h.tabs, want));
         }
         for (name, real, model) in [
